@@ -481,12 +481,32 @@ pub fn reply_array<const L: usize>() {
 // ---------------------------------------------------------------------------------------------------
 pub struct Conn {
     pub buf: BytesMut,
-    pub got: Vec<RespValue>,
+    // decoded frames in arrival order (fixed slots, not a Vec: every Vec::push costs CBMC ~40 s)
+    pub g0: Option<RespValue>,
+    pub g1: Option<RespValue>,
+    pub g2: Option<RespValue>,
+    pub n: usize,
     pub errors: usize,
 }
 impl Conn {
     pub fn new() -> Self {
-        Conn { buf: BytesMut::with_capacity(64), got: Vec::with_capacity(4), errors: 0 }
+        Conn { buf: BytesMut::with_capacity(64), g0: None, g1: None, g2: None, n: 0, errors: 0 }
+    }
+    fn record(&mut self, v: RespValue) {
+        match self.n {
+            0 => self.g0 = Some(v),
+            1 => self.g1 = Some(v),
+            2 => self.g2 = Some(v),
+            _ => assert!(false, "C20 more frames decoded than were sent"),
+        }
+        self.n += 1;
+    }
+    pub fn got(&self, k: usize) -> &Option<RespValue> {
+        match k {
+            0 => &self.g0,
+            1 => &self.g1,
+            _ => &self.g2,
+        }
     }
     /// one decode attempt of the loop; returns false when the loop would go back to reading the socket
     pub fn attempt(&mut self, layout: &[usize]) -> bool {
@@ -494,7 +514,7 @@ impl Conn {
         let before = self.buf.len();
         match RespValue::decode(&mut self.buf) {
             Ok(Some(v)) => {
-                self.got.push(v);
+                self.record(v);
                 true
             }
             Ok(None) | Err(RespError::Incomplete) => {
